@@ -54,7 +54,8 @@ func init() {
 	props["C04"] = func(r *Rec) {
 		runC34(r, "C04")
 		recFor(r, "C04")
-		c10For(r, "C04", map[string]string{"C10/token-registry/stake-caps-above-100-percent": "C04/solvency/stake-caps-above-100-percent"})
+		c10For(r, "C04", map[string]string{"C10/token-registry/stake-caps-above-100-percent": "C04/solvency/stake-caps-above-100-percent",
+			"C10/token-registry/stake-cap-out-of-range": "C04/solvency/stake-cap-out-of-range"})
 		c20For(r, "C04", map[string]string{"C20/escrow/module-below-recorded-bonds": "C04/solvency/layer2-escrow", "C20/lp-msg/free-money": "C04/solvency/layer2-lp-free-money"})
 		c11For(r, "C04", map[string]string{"C11/invariant/module-holds-less-than-recorded": "C04/solvency/basket-reserves-not-held", "C11/invariant/coins-not-recorded": "C04/solvency/basket-coins-not-recorded"})
 		// spending pools and collectives: an enactment that fails half-way must leave books and coins together
